@@ -81,18 +81,18 @@ theorem C13_method_stop (p : Params α) (f : Nat → List α → Option α) (ref
       have : X.nTrials = pe.nTrials := by simp [PState.nTrials, (PState.core_eq_iff.1 hc).1]
       rw [this, (oneIteration_error_counters herr).2.1, (iterN_counters hj).2.1]
 
-/-- **C13, the log of any sequence of operations is well formed.**  After any sequence of `DoGlobalIteration(k_j)`
-(`k_j ≥ 1`) and `Solve` calls on a fresh solver:
+/-- **C13, the log of any sequence of operations is well formed (general form, objective may raise).**  After any sequence of
+`DoGlobalIteration(k_j)` (`k_j ≥ 1`) and `Solve` calls on a fresh solver:
 
 1. `BeforeMethodStart` has been notified iff at least one iteration was started (i.e. the objective was called at least once);
 2. it has been notified exactly once in that case, provided no call of the objective has raised so far
    (in general at most `1 +` the number of failed calls: Python repeats the first iteration, and its notification,
-   after a failed first evaluation);
+   after a failed first evaluation — see the example at the end of the file; this is why the theorem is `_partial`);
 3. every `OnEndIteration` comes after a `BeforeMethodStart`;
 4. the concatenation of the id lists of all `OnEndIteration` notifications is a subsequence of the ids `2, 3, 4, …` of the
    evaluated trials in evaluation order, and is the whole sequence `2, …, numberOfGlobalTrials + 1` if no
    `DoGlobalIteration` call of the sequence raised (a raising call loses its `savedNewPoints`). -/
-theorem C13_events_wellformed (p : Params α) (f : Nat → List α → Option α) (refine : PState α → Option (LocalResult α))
+theorem C13_events_wellformed_partial (p : Params α) (f : Nat → List α → Option α) (refine : PState α → Option (LocalResult α))
     (ops : List Op) (hops : ∀ k, Op.iter k ∈ ops → 1 ≤ k) :
     let ps := runOps p f refine ops {}
     (Event.beforeStart ∈ ps.log ↔ 1 ≤ ps.calls) ∧
@@ -135,6 +135,28 @@ theorem C13_events_wellformed (p : Params α) (f : Nat → List α → Option α
       omega
   · exact ids_full_runOps (EvInv.fresh (α := α)) rfl ops hops hnr
 
+/-- **C13, the log of any sequence of operations is well formed (objective that never raises).**  After any sequence of
+`DoGlobalIteration(k_j)` (`k_j ≥ 1`) and `Solve` calls on a fresh solver, with an objective that never raises:
+`BeforeMethodStart` occurs in the log exactly once if at least one iteration was started (the objective was called) and not at
+all otherwise; every `OnEndIteration` comes after it; the concatenation of the id lists of all `OnEndIteration`
+notifications is a subsequence of the ids `2, 3, 4, …` of the evaluated trials, in evaluation order, and is exactly
+`2, …, numberOfGlobalTrials + 1` if no `DoGlobalIteration` call raised (over an ordered field nothing else can raise:
+`CalculateIterationPoint` never raises on reachable states, see C02). -/
+theorem C13_events_wellformed (p : Params α) (f : Nat → List α → Option α) (refine : PState α → Option (LocalResult α))
+    (hf : ∀ j pt, f j pt ≠ none) (ops : List Op) (hops : ∀ k, Op.iter k ∈ ops → 1 ≤ k) :
+    let ps := runOps p f refine ops {}
+    (ps.log.count Event.beforeStart = if ps.calls = 0 then 0 else 1) ∧
+    Ordered ps.log ∧
+    (idsOf ps.log).Sublist (List.range' 2 ps.nTrials) ∧
+    (NoIterRaise p f refine ops {} → idsOf ps.log = List.range' 2 ps.nTrials) := by
+  intro ps
+  obtain ⟨-, h2, -, h4, h5, h6⟩ := C13_events_wellformed_partial p f refine ops hops
+  obtain ⟨hc, hcalls⟩ := (Consistent.fresh (α := α)).runOps_pres (p := p) (f := f) (refine := refine) ops
+  have h0 : ({} : PState α).calls = 0 := rfl
+  have h1 : ({} : PState α).evals.length = 0 := rfl
+  have hfc := failedCalls_total (p := p) (refine := refine) hf (Consistent.fresh (α := α)) ops
+  exact ⟨h2 (by show (runOps p f refine ops {}).calls = _; omega), h4, h5, h6⟩
+
 end generic
 
 /-! ### non-vacuity on the toy instance -/
@@ -157,10 +179,20 @@ example : NoIterRaise (P 6 (1/100)) F noRefine [Op.iter 2, Op.iter 1, Op.solve, 
   · rintro ⟨k, hk, -⟩; cases hk
   · rintro ⟨k, hk, -⟩; cases hk
 
+/-- the theorem instantiated at that sequence -/
+example := C13_events_wellformed (P 6 (1/100)) F noRefine F_total [Op.iter 2, Op.iter 1, Op.solve, Op.solve]
+  (by intro k hk; simp at hk; omega)
+
 /-- a `DoGlobalIteration(3)` whose third evaluation raises loses the two trials it made: ids 2, 3 are never reported -/
 example : (runOps (P 6 (1/100)) (failAt 2) noRefine [Op.iter 3, Op.solve] {}).log =
     [Event.beforeStart, Event.endIteration [4], Event.endIteration [5], Event.endIteration [6], Event.endIteration [7],
      Event.methodStop true] := by
+  decide +kernel
+
+/-- **Why "exactly once" needs the proviso**: if the very first evaluation raises and the user calls again, the first iteration is
+repeated and `BeforeMethodStart` is notified a second time. -/
+example : (runOps (P 6 (1/100)) (failAt 0) noRefine [Op.iter 1, Op.iter 1] {}).log =
+    [Event.beforeStart, Event.beforeStart, Event.endIteration [2]] := by
   decide +kernel
 
 end examples
